@@ -1007,3 +1007,31 @@ def preprocess_idempotence_check(repo, tier, seed):
             'violations': viol, 'functions': funcs,
             'undecided': [] if len(obs) >= 3 else [{'function': 'Compiler.pre_process_*', 'kind': 'vacuous', 'reason': 'fewer than 3 obligations'}],
             'coverage': {'obligations': [o[0] for o in obs]}}
+
+
+def contract_coverage_check(repo, tier, seed, method='set_tag', mods=('asn1tools/codecs/ber.py', 'asn1tools/codecs/der.py')):
+    """coverage obligation for contracts written `for_class="*"`: every class of the BER and DER codecs resolves
+    `set_tag` to a definition that is under contract -- a new override (which the per-class expansion would silently skip)
+    is reported instead of escaping the identifier-octet contracts (C03; F19 was such an override)."""
+    from .verify import Verifier
+    import os
+    V = Verifier(repo, os.path.dirname(os.path.dirname(os.path.abspath(__file__))))
+    have = {(k[0], k[1]) for k, c in V.reg.contracts.items() if not c.abstract}
+    obs, viol, funcs = [], [], []
+    for rel in mods:
+        m = V.prog.module_by_relpath(rel)
+        for c in m.classes.values():
+            f = V.prog.find_method(c, method)
+            if f is None or not f.module.relpath.startswith('asn1tools/'):
+                continue
+            name = '%s::%s/%s-definition-under-contract(%s)' % (rel, c.name, method, f.ident)
+            ok = (f.module.relpath, f.qualname) in have
+            obs.append((name, ok))
+            if not ok:
+                viol.append({'obligation': name, 'function': f.ident, 'verdict': 'coverage obligation failed',
+                             'solver_output': 'class %s of %s resolves %s to %s, which has no contract' % (c.name, rel, method, f.ident),
+                             'inputs': None})
+    return {'name': 'contract coverage (%s)' % method, 'obligations': len(obs), 'discharged': sum(1 for o in obs if o[1]),
+            'violations': viol, 'functions': funcs,
+            'undecided': [] if len(obs) >= 40 else [{'function': 'ber/der classes', 'kind': 'vacuous', 'reason': 'fewer than 40 classes found'}],
+            'coverage': {'classes': len(obs)}}
